@@ -20,6 +20,18 @@ from . import known
 
 VERIF = os.path.dirname(os.path.dirname(os.path.abspath(__file__)))
 
+
+def _scratch():
+    """Runs against another source tree (PYTENET_SRC: sensitivity experiments) must not touch the committed evidence / replays."""
+    src = os.environ.get('PYTENET_SRC')
+    return bool(src) and os.path.realpath(src) != os.path.realpath('/repo')
+
+
+def out_dir(kind):
+    d = os.path.join(VERIF, 'reports', 'scratch_' + kind) if _scratch() else os.path.join(VERIF, kind)
+    os.makedirs(d, exist_ok=True)
+    return d
+
 # property -> list of (world, weight)
 WORLDS = {
     'C01': [('tn', 1)], 'C02': [('tn', 1)], 'C03': [('tn', 1)], 'C04': [('tn', 1)],
@@ -224,8 +236,7 @@ def shrink(session, prop, cls, budget_s=45.0):
 
 
 def write_replay(prop, tier, batch_seed, session, viol, shrunk, known_id=None):
-    os.makedirs(os.path.join(VERIF, 'replays'), exist_ok=True)
-    path = os.path.join(VERIF, 'replays', f'{prop}-{session["seed"]}.json')
+    path = os.path.join(out_dir('replays'), f'{prop}-{session["seed"]}.json')
     doc = {'property': prop, 'tier': tier, 'batch_seed': batch_seed, 'session_seed': session['seed'], 'k': session.get('k'),
            'expected_class': {'clause': viol['clause'], 'op': viol['op']}, 'violation': viol,
            'known_finding': known_id,
@@ -416,7 +427,6 @@ def run_check(prop, tier='quick', batch_seed=0, budget_s=None, sessions=None, wo
 
 
 def write_evidence(prop, tier, batch_seed, agg, reported, known_hits, det, wall, wall_explore, inconclusive, nunknown):
-    os.makedirs(os.path.join(VERIF, 'evidence'), exist_ok=True)
     judged_prop = {k: v for k, v in agg['judged'].items() if k.startswith(prop + ':')}
     hours = max(wall_explore, 1e-9) / 3600.0
     cov = {
@@ -462,5 +472,5 @@ def write_evidence(prop, tier, batch_seed, agg, reported, known_hits, det, wall,
                            'injected environment behaviours are legal by the arguments of DESIGN.md 4.4',
                            'a clean batch is evidence, not proof: sessions are sampled, not enumerated'],
            'wall_s': round(wall, 2), 'violations': int(nunknown)}
-    with open(os.path.join(VERIF, 'evidence', f'{prop}.json'), 'w') as f:
+    with open(os.path.join(out_dir('evidence'), f'{prop}.json'), 'w') as f:
         json.dump(doc, f, indent=1, default=str)
